@@ -525,7 +525,7 @@ def _core(case):
         n += 1
         said_valid, out, exc = validate(path)
         # ---- completeness -------------------------------------------------------------------
-        in_vocabulary = isinstance(typ, str) and typ.lower() in [x.lower() for x in tu.VOCABULARY_TYPES]
+        in_vocabulary = typ in tu.VOCABULARY_TYPES
         if not muts and in_vocabulary and not said_valid:
             fails.append(rt.fail('written-file-reported-valid', cls, 'valid',
                                  (out or '') + ('' if exc is None else ' | %s: %s' % (type(exc).__name__, str(exc)[:150]))))
@@ -651,7 +651,7 @@ def written_cases(tier, seed=0):
         for fmt in ('json', 'hdf5'):
             yield dict(b, fmt=fmt)
     base = MUT_BASES[0]['A']
-    for ty in types + [x.lower() for x in types[:2]] + [types[0].upper()]:
+    for ty in types:
         for fmt in ('json', 'hdf5'):
             yield {'A': base, 'layout': 'csr', 'zeros': 'nz', 'fmt': fmt, 'type': ty}
     for ids in ID_KINDS:
@@ -704,7 +704,7 @@ def run(rep):
         q = rep.tier == 'quick'
         rt.run_scope(rep, 'written-files',
                      'files written by to_json / to_hdf5 for %s matrices over {0,1,2} up to 2x2(+2x3,3x2 samples) x layout x '
-                     'stored zeros, value-stress matrices, the 7 vocabulary types (+ case variants), ID alphabets, metadata '
+                     'stored zeros, value-stress matrices, the 7 vocabulary types, ID alphabets, metadata '
                      'kinds, header strings, histories%s: reported valid; accepted JSON loads to declared shape/IDs/values'
                      % ('every 3rd of the' if q else 'all', '' if q else '; 1500 seeded random tables up to 6x6'),
                      written_cases(rep.tier, rep.seed), run_case, exhaustive=q, chunk=16)
